@@ -1273,36 +1273,7 @@ def extract_arm(src, spec, unit_rules):
         RULES[rname](src, item, ed, spec)
     if "shims" in spec and "R24" not in rules:
         r24_call_shim(src, item, ed, spec)
-    for at in spec.get("at", []):
-        kind, _, ordn = at["anchor"].partition(":")
-        sel = at.get("select")
-        if kind in ("return",):
-            c = nodes_of(item, kind)
-        elif kind == "methodcall":
-            c = [n for n in nodes_of(item, "methodcall") if n["method"] == sel and (at.get("recv") is None or n["receiver_text"] == at["recv"].replace(" ", ""))]
-        elif kind == "let":
-            c = [n for n in nodes_of(item, "let") if n["pat_text"] == sel.replace(" ", "")]
-        else:
-            raise Unsupported(f"arm anchor kind {kind}")
-        k = int(ordn or 0)
-        if k >= len(c):
-            raise LostAnchor(f"anchor {at['anchor']} {sel or ''} of arm {spec['arm']}")
-        n = c[k]
-        target = n
-        if kind == "methodcall":
-            for an in ancestors(item, n):
-                if an["kind"] in ("let", "assign"):
-                    target = an
-                    break
-                if an["kind"] in ("block", "loop", "arm", "closure", "if", "match"):
-                    break
-        if at.get("pos", "before") == "before":
-            ed.insert(target["range"][0], at["text"].strip() + "\n", "ghost")
-        else:
-            e = target["range"][1]
-            if src.data[e:e + 1] == b";":
-                e += 1
-            ed.insert(e, "\n" + at["text"].strip() + "\n", "ghost")
+    apply_at_anchors(src, item, ed, spec)
     loops = nodes_of(item, "loop")
     for ls in spec.get("loop", []):
         k = ls.get("n")
@@ -1336,8 +1307,14 @@ def extract_arm(src, spec, unit_rules):
     ret = spec.get("ret", "r")
     rty = "TeraResult<VxNext>" if control else "TeraResult<()>"
     tail = "    Ok(VxNext::Next)\n}\n" if control else "    Ok(())\n}\n"
+    if spec.get("value_arm"):
+        # the match is the function's result expression: the arm's value is what the function returns
+        rty = spec["ret_ty"]
+        tail = "}\n"
+        if inner.rstrip().endswith(";") and not arm["body_is_block"]:
+            inner = inner.rstrip()[:-1]
     text = (
-        f"pub fn {spec['name']}({spec['params']}) -> ({ret}: {rty})" + contract + "\n{\n"
+        f"pub fn {spec['name']}{spec.get('generics', '')}({spec['params']}) -> ({ret}: {rty})" + contract + "\n{\n"
         + (spec.get("body_start", "").strip() + "\n" if spec.get("body_start") else "")
         + inner + "\n"
         + (spec.get("body_end", "").strip() + "\n" if spec.get("body_end") else "")
